@@ -294,7 +294,7 @@ func (r *Run) Finish(cov map[string]any) {
 	if r.assume == nil {
 		evd["assumptions"] = []string{}
 	}
-	if r.ReplayPath == "" {
+	if r.ReplayPath == "" && os.Getenv("VERIF_EXTRA_OVERLAY") == "" { // mutant runs never touch the evidence
 		b, _ := json.MarshalIndent(evd, "", " ")
 		_ = os.MkdirAll(filepath.Join(Root, "evidence"), 0o755)
 		if err := os.WriteFile(filepath.Join(Root, "evidence", r.ID+".json"), b, 0o644); err != nil {
